@@ -59,7 +59,7 @@ impl Pattern {
                     }
                 },
                 (Pattern::Ignore, _) => {}
-                (Pattern::Tuple(pats), TypeInner::Tuple(types)) => {
+                (Pattern::Tuple(pats), TypeInner::Tuple(types)) if pats.len() == types.len() => {
                     stack.extend(pats.iter().zip(types.iter().map(Arc::as_ref)));
                 }
                 (Pattern::Array(pats), TypeInner::Array(ty, size)) if pats.len() == *size => {
